@@ -1,9 +1,10 @@
 //! Text writer family (C14, C15): the real TextWriter into a Vec<u8>, driven by call lists or tapes.
 //!
-//! cfg    = `<indent_char>,<indent_factor>,<r|d>` (the profile letter is for the model only)
+//! cfg    = `<indent_char>,<indent_factor>,<r|d>` (the profile letter is for the model only); `d` in place of
+//!          indent_char / indent_factor = that builder setter is not called (wave 4)
 //! calls  = `;`-separated: u:<hex> q:<hex> op:<code> h:<hex> s os as e b:<0|1> i32:<z> u32:<n> u64:<n>
 //!          i64:<z> f32:<bits>:<text> f64:<bits>:<text> f32p:<bits>:<prec>:<text> f64p:..
-//!          date:<d|h|u>:<y>:<m>:<d>:<h> rgb:<r>:<g>:<b>[:<a>] m fmt:<hex> bin:<TOKEN...>
+//!          date:<d|h|u>:<y>:<m>:<d>:<h> dateiso:<d|h|u>:<y>:<m>:<d>:<h> rgb:<r>:<g>:<b>[:<a>] m fmt:<hex> bin:<TOKEN...>
 //!          (bits in hex; <text> = what Display prints, consumed by the model only)
 //! output = `<hex of bytes written> <log>`, log = per call `[E]<depth>.<k + 2u + 4a>` joined by `,`
 use super::fam_texttape::{show_tape, show_tokens};
@@ -29,10 +30,16 @@ fn op_of(c: &str) -> Option<Operator> {
 
 fn builder(cfg: &str) -> Option<TextWriterBuilder> {
     let mut it = cfg.split(',');
-    let ch: u8 = it.next()?.parse().ok()?;
-    let fa: u8 = it.next()?.parse().ok()?;
+    // `d` = the setter is not called at all (TextWriterBuilder's own default: space / 2)
+    let ch = it.next()?;
+    let fa = it.next()?;
     let mut b = TextWriterBuilder::new();
-    b.indent_char(ch).indent_factor(fa);
+    if ch != "d" {
+        b.indent_char(ch.parse().ok()?);
+    }
+    if fa != "d" {
+        b.indent_factor(fa.parse().ok()?);
+    }
     Some(b)
 }
 
@@ -55,7 +62,7 @@ fn f64_of(bits: &str) -> Option<f64> {
 }
 
 /// One call; None = malformed case.
-fn apply(w: &mut TextWriter<&mut Vec<u8>>, call: &str) -> Option<Result<(), jomini::Error>> {
+fn apply<W: std::io::Write>(w: &mut TextWriter<W>, call: &str) -> Option<Result<(), jomini::Error>> {
     let p: Vec<&str> = call.split(':').collect();
     let r = match p[0] {
         "u" => w.write_unquoted(&unhex(p.get(1)?)),
@@ -84,6 +91,19 @@ fn apply(w: &mut TextWriter<&mut Vec<u8>>, call: &str) -> Option<Result<(), jomi
                 "d" => w.write_date(Date::from_ymd_opt(y, m, d)?.game_fmt()),
                 "h" => w.write_date(DateHour::from_ymdh_opt(y, m, d, h)?.game_fmt()),
                 "u" => w.write_date(UniformDate::from_ymd_opt(y, m, d)?.game_fmt()),
+                _ => return None,
+            }
+        }
+        // write_date with the ISO-8601 formatter of the same three date types
+        "dateiso" => {
+            let y: i16 = p.get(2)?.parse().ok()?;
+            let m: u8 = p.get(3)?.parse().ok()?;
+            let d: u8 = p.get(4)?.parse().ok()?;
+            let h: u8 = p.get(5)?.parse().ok()?;
+            match *p.get(1)? {
+                "d" => w.write_date(Date::from_ymd_opt(y, m, d)?.iso_8601()),
+                "h" => w.write_date(DateHour::from_ymdh_opt(y, m, d, h)?.iso_8601()),
+                "u" => w.write_date(UniformDate::from_ymd_opt(y, m, d)?.iso_8601()),
                 _ => return None,
             }
         }
@@ -131,7 +151,7 @@ fn apply(w: &mut TextWriter<&mut Vec<u8>>, call: &str) -> Option<Result<(), jomi
     Some(r)
 }
 
-fn queries(w: &TextWriter<&mut Vec<u8>>) -> String {
+fn queries<W: std::io::Write>(w: &TextWriter<W>) -> String {
     let f = (w.expecting_key() as u8) + 2 * (w.at_unknown_start() as u8) + 4 * (w.at_array_value() as u8);
     format!("{}.{}", w.depth(), f)
 }
@@ -163,6 +183,54 @@ fn write_tape(cfg: &str, tape: &TextTape) -> Option<(Vec<u8>, bool, String)> {
         q = queries(&w);
     }
     Some((out, ok, q))
+}
+
+/// A writer *session* (wave 4): one TextWriter over an OWNED Vec<u8>, driven by a list of segments
+///   `c=<calls>`               direct calls (same syntax as writer.calls)
+///   `t=<input hex>|<tape>`    write_tape of the parsed input (the tape string is what the model gets)
+///   `i=<hex>`                 bytes written behind the writer's back through inner()
+/// and finished with into_inner().  Log: per segment, joined by `/`: the per-call entries of a `c=`
+/// segment, `T<queries>` / `TE<queries>` for a tape, `I` for a raw write.
+fn run_session(cfg: &str, segs: &[&str]) -> Option<Result<(Vec<u8>, String), &'static str>> {
+    use std::io::Write;
+    let b = builder(cfg)?;
+    let mut w = b.from_writer(Vec::<u8>::new());
+    let mut log: Vec<String> = Vec::new();
+    for s in segs {
+        let (k, body) = s.split_once('=')?;
+        match k {
+            "c" => {
+                let mut l: Vec<String> = Vec::new();
+                if body != "-" && !body.is_empty() {
+                    for c in body.split(';') {
+                        let r = apply(&mut w, c)?;
+                        l.push(format!("{}{}", if r.is_err() { "E" } else { "" }, queries(&w)));
+                    }
+                }
+                log.push(if l.is_empty() { "-".to_string() } else { l.join(",") });
+            }
+            "t" => {
+                let (input, tape) = body.split_once('|')?;
+                let d = unhex(input);
+                let t = match TextTape::from_slice(&d) {
+                    Ok(t) => t,
+                    Err(_) => return Some(Err("PARSE-ERR")),
+                };
+                if show_tokens(t.tokens()) != tape {
+                    return Some(Err("TAPE-MISMATCH"));
+                }
+                let ok = w.write_tape(&t).is_ok();
+                log.push(format!("T{}{}", if ok { "" } else { "E" }, queries(&w)));
+            }
+            "i" => {
+                w.inner().write_all(&unhex(body)).ok()?;
+                log.push("I".to_string());
+            }
+            _ => return None,
+        }
+    }
+    let out: Vec<u8> = w.into_inner();
+    Some(Ok((out, if log.is_empty() { "-".to_string() } else { log.join("/") })))
 }
 
 fn show_opt<T: ToString, E>(r: Result<T, E>) -> String {
@@ -243,6 +311,47 @@ pub fn dispatch(kind: &str, a: &[&str]) -> Option<String> {
                                 }
                             )),
                             _ => {}
+                        }
+                    }
+                    if v.is_empty() {
+                        "-".to_string()
+                    } else {
+                        v.join(" ")
+                    }
+                }
+            },
+        },
+        // ---------- wave 4: sessions (reused writers, write_tape at depth, inner / into_inner) ----------
+        ("writer.session", [cfg, segs @ ..]) => match run_session(cfg, segs) {
+            Some(Ok((out, log))) => format!("{} {}", hex(&out), log),
+            Some(Err(e)) => e.to_string(),
+            None => "BADCASE".to_string(),
+        },
+        // implementation only: the session's bytes through the real parser
+        ("writer.session_reparse", [cfg, segs @ ..]) => match run_session(cfg, segs) {
+            Some(Ok((out, _))) => show_tape(&TextTape::from_slice(&out)),
+            Some(Err(e)) => e.to_string(),
+            None => "BADCASE".to_string(),
+        },
+        // implementation only: calls -> bytes -> parser -> every unquoted scalar read back as a typed value
+        //   U:<raw>:<bool 1|0|->:<Date game_fmt hex|->:<DateHour ..|->:<UniformDate ..|->
+        ("writer.typed", [cfg, calls]) => match run_calls(cfg, calls) {
+            None => "BADCASE".to_string(),
+            Some((out, _)) => match TextTape::from_slice(&out) {
+                Err(_) => "ERR".to_string(),
+                Ok(t) => {
+                    let mut v: Vec<String> = Vec::new();
+                    for tok in t.tokens() {
+                        if let TextToken::Unquoted(s) = tok {
+                            let b = match s.to_bool() {
+                                Ok(true) => "1",
+                                Ok(false) => "0",
+                                Err(_) => "-",
+                            };
+                            let d = Date::parse(s.as_bytes()).map(|x| hex(x.game_fmt().to_string().as_bytes())).unwrap_or_else(|_| "-".to_string());
+                            let dh = DateHour::parse(s.as_bytes()).map(|x| hex(x.game_fmt().to_string().as_bytes())).unwrap_or_else(|_| "-".to_string());
+                            let du = UniformDate::parse(s.as_bytes()).map(|x| hex(x.game_fmt().to_string().as_bytes())).unwrap_or_else(|_| "-".to_string());
+                            v.push(format!("U:{}:{}:{}:{}:{}", hex(s.as_bytes()), b, d, dh, du));
                         }
                     }
                     if v.is_empty() {
